@@ -68,14 +68,17 @@ func checkC03(c *Ctx) {
 		"(S-accept) right-sized inputs are not rejected by a size guard, reach no panicking precondition of crypto/cipher, and the returned ciphertext/tag have the lengths the decrypting side insists on; " +
 		"(S-key/S-nonce/S-tag/S-length/S-unsupported) a key, nonce, tag, plaintext/ciphertext length or algorithm name of the wrong size/kind makes every path return the package sentinel without output and without reaching a panicking precondition; the three ECDSA names are distinguishable on their path (otherwise a key on the wrong curve cannot be refused); " +
 		"(T-reject) if the authenticating/verifying primitive (AEAD.Open, hmac.Equal, key-unwrap integrity check, rsa.Verify*/Decrypt*, ecdsa/ed25519 verify) reports failure no path returns success; " +
-		"(AEAD-cbc-hmac) hmacTag feeds the MAC with A || IV || E || AL (AL = 8 bytes, bit length of A) for empty, nil and non-empty associated data alike; aescbcaead.Open rejects wrong nonce sizes, partial blocks, short inputs and tag mismatches with an error instead of panicking, its accepting path compares all tagSize bytes of the received and of the computed tag (16/24/32), Seal/Open MAC (AAD, IV, ciphertext) in the RFC 7518 5.2.2.1 layout with AL in bits, the constructors carry the RFC 7518 5.2.3-5.2.5 parameters; " +
-		"(KW-rfc3394) aeskw.Wrap/Unwrap reject inputs that are not whole 64-bit blocks / too short with an error instead of panicking or silently ignoring bytes, fail closed on the IV check, which compares all 8 bytes of A, return len+8 / len-8 bytes, and in both the loop-variant step counter reaches a big-endian byte encoding (binary.BigEndian.PutUintN or single-byte stores of t>>k) with at least its low 32 bits — a narrowing of t to 8/16 bits or a little-endian encoding is reported, shapes the bit-flow analysis cannot classify are UNDECIDED; " +
-		"(PAD-pkcs7) PadPKCS7 returns len+16-len%16 bytes; UnpadPKCS7 returns buf[:len-padLen] only where branch facts establish 1 <= padLen <= size against the block-size parameter (a bound against the buffer length, a strict bound or no bound is reported; pad lengths that also flow into calls/masks are UNDECIDED) and after a byte-by-byte loop over exactly the last padLen bytes (other verification shapes are UNDECIDED). " +
+		"(AEAD-cbc-hmac) the objects returned by aescbcaead's exported constructors (found by interpreting the constructors; their type, fields and helper methods are resolved through the dynamic type, no unexported name is used) reject wrong key sizes; their Open rejects wrong nonce sizes, partial blocks, short inputs and tag mismatches with an error instead of panicking and compares all tagSize bytes of the received and of the computed tag (16/24/32); Seal/Open key AES with ENC_KEY_LEN bytes, HMAC with MAC_KEY_LEN bytes and the RFC 7518 hash and feed the MAC with A || IV || E || AL (AL = bit length of A, always present) for empty, nil and non-empty associated data; NonceSize/Overhead report 16 / the tag size; " +
+		"(KW-rfc3394) aeskw.Wrap/Unwrap reject inputs that are not whole 64-bit blocks / too short with an error instead of panicking or silently ignoring bytes, fail closed on the IV check, which compares all 8 bytes of A, return len+8 / len-8 bytes, and in both the loop-variant step counter (followed into same-package helpers, closures and captured variables) reaches a big-endian byte encoding (binary.BigEndian.PutUintN/AppendUintN or single-byte stores of t>>k) with at least its low 32 bits — a narrowing of t to 8/16 bits or a little-endian encoding is reported, shapes the bit-flow analysis cannot classify are UNDECIDED; " +
+		"(PAD-pkcs7) PadPKCS7 returns len+16-len%16 bytes; UnpadPKCS7, interpreted on a buffer of symbolic bytes whose last byte is a chosen pad length P, rejects P=0 and P>size, accepts 1<=P<=size stripping exactly P bytes, and on every accepting path has compared each padding byte with P (==/!=, bytes.Equal, hmac.Equal, subtle.ConstantTimeCompare, bytes.HasSuffix/HasPrefix against a run of P) without constraining any other byte; a padding byte that is read but flows into arithmetic the interpreter does not model is UNDECIDED. " +
+		"How code is followed: static calls, closures with their captured variables, bound methods, function values whose target is known on the path (also when taken from local or package-level slices/maps, whose contents are those the package initialiser gives them), calls through interfaces declared in the module when the dynamic type is known, deferred calls at every exit, named results; crypto.Signer/crypto.Decrypter method forms, NewGCMWithNonceSize(12)/NewGCMWithTagSize(16), sha256.New/sha512.New384/sha512.New are treated as the package-level primitives they are documented to equal; a sentinel wrapped with fmt.Errorf(%w) counts as that sentinel. A call whose target cannot be resolved, a call through a module interface of unknown dynamic type or a go statement makes the path imprecise (UNDECIDED, never VIOLATION); in 'primitive fails' scenarios an accepting path that goes through no primitive the checker can make fail is UNDECIDED. " +
 		"NOT decided: that decryption inverts encryption byte for byte, interoperability of the produced bytes beyond primitive/parameter/layout selection (trusted: Go standard library, x/crypto; the RFC 3394 round structure beyond the counter encoding (number of rounds, that the encoded counter is XORed into A at the right byte positions), the PKCS#7 pad byte values, which half of the CBC-HMAC key is the MAC key are content-level facts pinned only by the repository's vector tests), that every single-byte mutation is rejected (follows from the primitives' authentication, which is assumed), PSS salt options, constant-time behaviour, RSA key-size handling inside the standard library, the Ed25519 curve check beyond key kind."
 	r.Assumptions = append(r.Assumptions,
 		"documented contracts of the standard library: aes.NewCipher accepts exactly 16/24/32-byte keys; cipher.NewGCM on an AES block never fails and has a 12-byte nonce and 16-byte tag; NewCBCEncrypter/Decrypter panic unless len(iv)==16; BlockMode.CryptBlocks panics on partial blocks or a short destination; AEAD.Seal/Open panic on a nonce of the wrong length; chacha20poly1305.New/NewX accept exactly 32-byte keys; crypto.Hash(0).New panics",
 		"package-level error variables (the sentinels) are non-nil and never reassigned",
 		"loops whose trip count does not follow from the scenario are explored for 0, 1 and 2 iterations",
+		"a package-level variable that no function other than its package initialiser stores to (and whose address is not passed to a call) has the value the initialiser gives it",
+		"(*rsa.PrivateKey).Decrypt/Sign, (*ecdsa.PrivateKey).Sign and ed25519.PrivateKey.Sign behave as the documented package-level functions they delegate to; errors.Is sees through fmt.Errorf(%w)",
 		"jwk.Key.Raw(&[]byte) either fails or stores the key bytes; KeyType() of an octet key is jwa.OctetSeq")
 
 	r.Rule(c03RDispatch, "every listed algorithm name reaches an output-carrying return in both directions of its family dispatcher and of the generic Encrypt/Decrypt", 116)
@@ -87,9 +90,9 @@ func checkC03(c *Ctx) {
 	r.Rule(c03RLength, "plaintext/ciphertext that is not a whole number of blocks is rejected with the length sentinel (CBC) / an error (key wrap)", 12)
 	r.Rule(c03RUnsup, "an unknown algorithm name yields ErrUnsupportedAlgorithm from every dispatcher", 8)
 	r.Rule(c03RReject, "failure of the authenticating/verifying primitive never reaches a success return", 28)
-	r.Rule(c03RAead, "aescbcaead: Open returns errors (never panics) for wrong nonce / partial block / short input / bad tag; RFC 7518 parameters and MAC layout; the whole tag (tagSize bytes on both sides) takes part in the comparison; NonceSize/Overhead", 12)
+	r.Rule(c03RAead, "aescbcaead: Open returns errors (never panics) for wrong nonce / partial block / short input / bad tag; RFC 7518 parameters and MAC layout; the whole tag (tagSize bytes on both sides) takes part in the comparison; NonceSize/Overhead; constructors reject wrong key sizes", 10)
 	r.Rule(c03RKW, "aeskw: Wrap/Unwrap reject malformed lengths with an error, fail closed on the IV check which compares all 8 bytes, accept well-formed input; the step counter t reaches its big-endian byte encoding with at least its low 32 bits in both directions (no narrowing to 8/16 bits, no little-endian)", 8)
-	r.Rule(c03RPad, "PadPKCS7(buf,16) returns len(buf)+16-len(buf)%16 bytes and no error; UnpadPKCS7 strips padLen bytes only under the dominating facts 1 <= padLen <= size (the block-size parameter, not the buffer length) and after an index loop over exactly buf[len-padLen:len) that compares every byte with byte(padLen) and whose mismatch branch cannot reach the stripping return", 3)
+	r.Rule(c03RPad, "PadPKCS7(buf,16) returns len(buf)+16-len(buf)%16 bytes and no error; UnpadPKCS7 on a buffer with symbolic bytes and last byte P: P=0 and every P>size are rejected, 1<=P<=size is accepted and exactly P bytes are stripped; on every accepting path each of the last P bytes was compared with P and found equal, and no byte outside the padding is constrained", 3)
 
 	// anchors ---------------------------------------------------------------
 	for _, s := range []string{"ErrUnsupportedAlgorithm", "ErrKeyTypeMismatch", "ErrInvalidNonce", "ErrInvalidTag", "ErrInvalidPlaintextLength", "ErrInvalidCiphertextLength"} {
@@ -127,29 +130,40 @@ func checkC03(c *Ctx) {
 	c.Fixture("c03kw", func(fp *Prog, fr *Report) { c03KWFixtureRule(fp, fr) })
 }
 
-// listedNames evaluates the []string literal a Supported*Algorithms function
-// returns: every string constant stored into the returned array.
+// listedNames evaluates what a Supported*Algorithms function returns by
+// interpreting it (literal, package-level table, clone/append of one, …):
+// every element of the returned slice must be a known string.
 func (e *c03Env) listedNames(fn *ssa.Function) []string {
+	x := newC03Exec(e.p, e.kwScenario(false))
+	outs := x.Run(fn, nil)
 	var names []string
-	ok := true
-	allInstrs(fn, func(in ssa.Instruction) {
-		switch i := in.(type) {
-		case *ssa.Store:
-			if b, isB := i.Val.Type().Underlying().(*types.Basic); isB && b.Info()&types.IsString != 0 {
-				if k, isK := i.Val.(*ssa.Const); isK && k.Value != nil && k.Value.Kind() == constant.String {
-					names = append(names, constant.StringVal(k.Value))
-				} else {
-					ok = false
-				}
-			}
-		case *ssa.Call:
-			if builtinName(i) == "" {
+	ok := len(outs) > 0 && !x.Truncated
+	for k, o := range outs {
+		if o.Panic != "" || len(o.Res) != 1 || o.Imprecise {
+			ok = false
+			break
+		}
+		st := &c03State{mem: o.Mem}
+		es, known := x.elemsOf(st, o.Res[0])
+		if !known {
+			ok = false
+			break
+		}
+		var cur []string
+		for _, ev := range es {
+			if ev.K != c03Str {
 				ok = false
 			}
+			cur = append(cur, ev.S)
 		}
-	})
+		if k == 0 {
+			names = cur
+		} else if strings.Join(cur, ",") != strings.Join(names, ",") {
+			ok = false
+		}
+	}
 	if !ok || len(names) == 0 {
-		undecided("%s is no longer a literal list of constant names (cannot enumerate the supported algorithms)", FuncName(e.p, fn))
+		undecided("%s: the returned list of algorithm names cannot be evaluated (cannot enumerate the supported algorithms)", FuncName(e.p, fn))
 	}
 	return names
 }
@@ -226,8 +240,13 @@ type c03Run struct {
 }
 
 func (e *c03Env) run(sc *c03Scenario, fn *ssa.Function, args []c03V, desc string) c03Run {
+	return e.runMem(sc, fn, args, nil, desc)
+}
+
+// runMem: like run, with an initial memory (the objects the arguments point to).
+func (e *c03Env) runMem(sc *c03Scenario, fn *ssa.Function, args []c03V, mem map[ssa.Value]c03V, desc string) c03Run {
 	x := newC03Exec(e.p, sc)
-	outs := x.Run(fn, args)
+	outs := x.RunWith(fn, args, nil, mem)
 	e.execs++
 	if dbg := os.Getenv("KC_C03_DEBUG"); dbg != "" && strings.Contains(FuncName(e.p, fn)+" "+desc, dbg) {
 		fmt.Fprintf(os.Stderr, "RUN %s %v [%s] truncated=%v steps=%d\n", FuncName(e.p, fn), args, desc, x.Truncated, x.steps)
@@ -351,6 +370,20 @@ func (e *c03Env) noSuccess(run c03Run) c03Verdict {
 		if o.Panic != "" && !o.Explicit {
 			msg = o.Panic
 		} else if notRejected {
+			// the failure can only be injected into primitives the interpreter models: an accepting
+			// path that went through none of them proves nothing
+			injected := false
+			for _, ev := range o.Events {
+				if c03FailControlled[ev.Name] || strings.HasSuffix(ev.Name, "/crypto/aeskw.Unwrap") {
+					injected = true
+				}
+			}
+			if !injected {
+				if v.imprecise == "" {
+					v.imprecise = run.desc + ": " + e.describe(o) + " — the path verifies/decrypts through no primitive the checker can make fail"
+				}
+				continue
+			}
 			msg = e.describe(o) + " although the primitive reported failure"
 		}
 		if msg == "" {
@@ -452,6 +485,7 @@ var c03Neutral = map[string]bool{
 	"crypto/aes.NewCipher": true, "crypto.Hash.New": true, "crypto/hmac.New": true, "crypto/hmac.Equal": true,
 	"crypto/cipher.AEAD.NonceSize": true, "crypto/cipher.AEAD.Overhead": true, "crypto/cipher.Block.BlockSize": true,
 	"crypto/subtle.ConstantTimeCompare": true, "crypto.Hash.Available": true, "crypto.Hash.Size": true,
+	"crypto/sha1.New": true, "crypto/sha256.New": true, "crypto/sha256.New224": true, "crypto/sha512.New": true, "crypto/sha512.New384": true,
 }
 
 func c03IsCryptoPkg(name string) bool {
@@ -541,12 +575,17 @@ func (e *c03Env) checkRoute(construct, pos string, run c03Run, required []string
 					}
 					found = true
 					a := ev.Args[h.arg]
-					if a.K != c03Int {
+					got, known := a.I, a.K == c03Int
+					if !known && strings.HasPrefix(a.G, "hash:") { // a hash.Hash object: which constructor made it
+						_, err := fmt.Sscanf(a.G, "hash:%d", &got)
+						known = err == nil
+					}
+					if !known {
 						if v.imprecise == "" {
 							v.imprecise = "hash argument of " + h.event + " is not a constant the interpreter can evaluate"
 						}
-					} else if a.I != want {
-						msg = fmt.Sprintf("%s is given crypto.Hash(%d) but the algorithm name stands for crypto.%s (=%d)", h.event, a.I, h.hash, want)
+					} else if got != want {
+						msg = fmt.Sprintf("%s is given crypto.Hash(%d) but the algorithm name stands for crypto.%s (=%d)", h.event, got, h.hash, want)
 					}
 				}
 				if !found && msg == "" {
@@ -896,8 +935,8 @@ func (e *c03Env) checkAsymmetric(names []string, enc, dec, gEnc, gDec *ssa.Funct
 			reqE, reqD = []string{"crypto/rsa.EncryptPKCS1v15"}, []string{"crypto/rsa.DecryptPKCS1v15"}
 		case e.oaepHash(name) != "":
 			reqE, reqD = []string{"crypto/rsa.EncryptOAEP"}, []string{"crypto/rsa.DecryptOAEP"}
-			hE = []c03HashReq{{"crypto.Hash.New", 0, e.oaepHash(name)}}
-			hD = hE
+			hE = []c03HashReq{{"crypto/rsa.EncryptOAEP", 0, e.oaepHash(name)}}
+			hD = []c03HashReq{{"crypto/rsa.DecryptOAEP", 0, e.oaepHash(name)}}
 		default:
 			e.r.Undecide("asymmetric algorithm %q is listed as supported but the checker has no specification for it", name)
 			continue
@@ -1104,8 +1143,13 @@ func (e *c03Env) checkUnsupported(fns []*ssa.Function) {
 	}
 }
 
+// c03FailControlled: the primitives a Fail scenario makes report failure.
+var c03FailControlled = map[string]bool{"crypto/cipher.AEAD.Open": true, "crypto/hmac.Equal": true, "crypto/subtle.ConstantTimeCompare": true, "bytes.Equal": true, "slices.Equal": true,
+	"crypto/rsa.DecryptPKCS1v15": true, "crypto/rsa.DecryptOAEP": true, "crypto/rsa.VerifyPKCS1v15": true, "crypto/rsa.VerifyPSS": true,
+	"crypto/ecdsa.VerifyASN1": true, "crypto/ed25519.Verify": true}
+
 // c03Comparators: the functions through which a tag / IV is compared.
-var c03Comparators = map[string]bool{"crypto/hmac.Equal": true, "crypto/subtle.ConstantTimeCompare": true, "bytes.Equal": true}
+var c03Comparators = map[string]bool{"crypto/hmac.Equal": true, "crypto/subtle.ConstantTimeCompare": true, "bytes.Equal": true, "slices.Equal": true}
 
 // wholeCompared: on every success outcome of run the comparison functions
 // must have been given, in total, at least `need` bytes on each side — every
@@ -1166,312 +1210,6 @@ func (e *c03Env) cmpGuard(run c03Run, v c03Verdict) c03Verdict {
 	}
 	v.imprecise, v.bad, v.more = v.bad+" (no known comparison function on the path)", "", nil
 	return v
-}
-
-// ---- aescbcaead ----------------------------------------------------------------
-
-func (e *c03Env) checkAEAD() {
-	p := e.p
-	rel := "crypto/aescbcaead"
-	open := p.Func(rel, "aesCBCAEAD.Open")
-	seal := p.Func(rel, "aesCBCAEAD.Seal")
-	nonceSize := p.Func(rel, "aesCBCAEAD.NonceSize")
-	overhead := p.Func(rel, "aesCBCAEAD.Overhead")
-	params := p.Named(rel, "aesCBCAEADParams")
-	st, _ := params.Underlying().(*types.Struct)
-	have := map[string]bool{}
-	if st != nil {
-		for i := 0; i < st.NumFields(); i++ {
-			have[st.Field(i).Name()] = true
-		}
-	}
-	for _, f := range []string{"encKeySize", "macKeySize", "tagSize", "macAlg", "key"} {
-		if !have[f] {
-			undecided("anchor field aescbcaead.aesCBCAEADParams.%s no longer resolves", f)
-		}
-	}
-	ptype := e.mod + "/" + rel + ".aesCBCAEADParams"
-	atype := e.mod + "/" + rel + ".aesCBCAEAD"
-	mk := func(tag, encKey int64, fail bool) *c03Scenario {
-		sc := e.scenario()
-		sc.Fail = fail
-		sc.Fields[FieldID{ptype, "tagSize"}] = c03IntV(tag)
-		sc.Fields[FieldID{ptype, "encKeySize"}] = c03IntV(encKey)
-		sc.Fields[FieldID{ptype, "macKeySize"}] = c03IntV(tag)
-		sc.Fields[FieldID{atype, "encKey"}] = c03SliceV(encKey)
-		sc.Fields[FieldID{atype, "macKey"}] = c03SliceV(tag)
-		return sc
-	}
-	// receiver + (dst, nonce, ciphertext, ad)
-	oargs := func(nonce, ct int64) []c03V {
-		return []c03V{c03NonNilV(), c03NilV(), c03SliceV(nonce), c03SliceV(ct), c03SliceV(5)}
-	}
-	if len(open.Params) != 5 || len(seal.Params) != 5 {
-		undecided("aesCBCAEAD.Open/Seal no longer have the cipher.AEAD signature")
-	}
-	oname := FuncName(p, open)
-	pos := p.Pos(open.Pos())
-	variants := []struct{ tag, enc int64 }{{16, 16}, {24, 24}, {32, 32}}
-
-	var vNonce, vBlocks, vShort, vFail, vAcc, vWhole c03Verdict
-	for _, va := range variants {
-		for _, nl := range []int64{0, 8, 12, 15, 17, 24} {
-			vNonce.merge(e.allRejected(e.run(mk(va.tag, va.enc, false), open, oargs(nl, 32+va.tag), fmt.Sprintf("tag size %d, %d-byte nonce, tag over it valid", va.tag, nl)), ""))
-		}
-		for _, extra := range []int64{1, 7, 15, 17, 40} {
-			vBlocks.merge(e.allRejected(e.run(mk(va.tag, va.enc, false), open, oargs(16, extra+va.tag), fmt.Sprintf("tag size %d, %d ciphertext bytes before the tag, tag valid", va.tag, extra)), ""))
-		}
-		for _, ct := range []int64{0, 1, va.tag - 1} {
-			vShort.merge(e.allRejected(e.run(mk(va.tag, va.enc, false), open, oargs(16, ct), fmt.Sprintf("tag size %d, %d-byte input", va.tag, ct)), ""))
-		}
-		frun := e.run(mk(va.tag, va.enc, true), open, oargs(16, 32+va.tag), fmt.Sprintf("tag size %d, tag mismatch", va.tag))
-		vFail.merge(e.cmpGuard(frun, e.noSuccess(frun)))
-		arun := e.run(mk(va.tag, va.enc, false), open, oargs(16, 32+va.tag), fmt.Sprintf("tag size %d, 16-byte nonce, 32+tag bytes", va.tag))
-		vAcc.merge(e.accepted(arun))
-		vWhole.merge(e.wholeCompared(arun, va.tag, "authentication tag"))
-	}
-	e.settle(c03RAead, oname+" wrong nonce size", pos, vNonce, "a nonce that is not 16 bytes always yields an error", "Open does not return an error for a nonce of the wrong size")
-	e.settle(c03RAead, oname+" partial block", pos, vBlocks, "a ciphertext that is not whole blocks always yields an error", "Open does not return an error for a ciphertext that is not a whole number of AES blocks")
-	e.settle(c03RAead, oname+" short input", pos, vShort, "an input shorter than the tag yields an error", "Open does not return an error for an input shorter than the tag")
-	e.settle(c03RAead, oname+" tag mismatch", pos, vFail, "a tag mismatch never reaches the plaintext return", "Open can return plaintext although hmac.Equal reported a mismatch")
-	e.settle(c03RAead, oname+" whole tag compared", pos, vWhole, "the accepting path compares tagSize bytes of the received tag with tagSize bytes of the computed one (tag sizes 16, 24, 32)", "Open accepts without comparing the whole tag")
-	e.settle(c03RAead, oname+" well-formed input", pos, vAcc, "well-formed input reaches the plaintext return and no panic", "Open rejects or panics on well-formed input")
-
-	// Seal: right-sized nonce, several plaintext lengths: no implicit panic, output produced
-	var vSeal c03Verdict
-	for _, va := range variants {
-		for _, pl := range []int64{0, 7, 16, 33} {
-			run := e.run(mk(va.tag, va.enc, false), seal, []c03V{c03NonNilV(), c03NilV(), c03SliceV(16), c03SliceV(pl), c03SliceV(5)}, fmt.Sprintf("tag size %d, %d-byte plaintext", va.tag, pl))
-			w := e.accepted(run)
-			for _, o := range run.outs {
-				if got, want := c03KnownLen(o.Res0()), pl+16-pl%16+va.tag; c03Success(o) && got >= 0 && got != want && w.bad == "" {
-					w.bad = fmt.Sprintf("%s: Seal returns %d bytes, padded ciphertext plus tag is %d", run.desc, got, want)
-				}
-			}
-			vSeal.merge(w)
-		}
-	}
-	// MAC input wiring (both directions must authenticate AAD, IV and ciphertext) and layout (RFC 7518 §5.2.2.1: A || IV || E || AL)
-	hmacTag := p.Func(rel, "aesCBCAEAD.hmacTag")
-	hname := e.mod + "/" + rel + ".aesCBCAEAD.hmacTag"
-	{
-		var vw c03Verdict
-		for _, d := range []struct {
-			fn   *ssa.Function
-			args []c03V
-			ct   int64
-		}{{open, oargs(16, 48+24), 48}, {seal, []c03V{c03NonNilV(), c03NilV(), c03SliceV(16), c03SliceV(40), c03SliceV(5)}, 48}} {
-			run := e.run(mk(24, 24, false), d.fn, d.args, "tag size 24, 5 bytes of associated data")
-			w := c03Verdict{truncated: run.truncated}
-			seen := false
-			for _, o := range run.outs {
-				if !c03Success(o) {
-					continue
-				}
-				for _, ev := range o.Events {
-					if ev.Name != hname || len(ev.Args) != 6 {
-						continue
-					}
-					seen = true
-					for _, a := range []struct {
-						k    int
-						want int64
-						what string
-					}{{2, 5, "associated data"}, {3, 16, "nonce"}, {4, d.ct, "ciphertext"}} {
-						if got := c03KnownLen(ev.Args[a.k]); got >= 0 && got != a.want && w.bad == "" {
-							w.bad = fmt.Sprintf("%s computes the tag over %d bytes where the %s (%d bytes) belongs: the %s is not authenticated", FuncName(p, d.fn), got, a.what, a.want, a.what)
-						} else if got < 0 {
-							w.imprecise = "length of the " + a.what + " handed to hmacTag unknown"
-						}
-					}
-					if l := ev.Args[5]; l.K == c03Int && l.I != 24 && w.bad == "" {
-						w.bad = fmt.Sprintf("%s truncates the tag to %d bytes instead of tagSize", FuncName(p, d.fn), l.I)
-					}
-				}
-			}
-			if !seen && w.bad == "" {
-				w.imprecise = FuncName(p, d.fn) + " no longer calls hmacTag on its success path"
-			}
-			vw.merge(w)
-		}
-		// layout for empty (nil and zero-length) and non-empty associated data: AL is part of the MAC input on every path
-		for _, adv := range []struct {
-			v    c03V
-			n    int64
-			what string
-		}{{c03SliceV(5), 5, "5 bytes of associated data"}, {c03SliceV(0), 0, "empty associated data"}, {c03NilV(), 0, "nil associated data"}} {
-			run := e.run(mk(24, 24, false), hmacTag, []c03V{c03U(), c03NonNilV(), adv.v, c03SliceV(16), c03SliceV(48), c03IntV(24)}, "hmacTag("+adv.what+", IV=16, E=48 bytes)")
-			w := c03Verdict{truncated: run.truncated}
-			var expect []int64
-			if adv.n > 0 {
-				expect = append(expect, adv.n)
-			}
-			expect = append(expect, 16, 48, 8)
-			wantSum := adv.n + 16 + 48 + 8
-			for _, o := range run.outs {
-				var segs []int64
-				var sum int64
-				unknown := false
-				al, sawAL := int64(-1), false
-				for _, ev := range o.Events {
-					if (ev.Name == "io.Writer.Write" || ev.Name == "hash.Hash.Write") && len(ev.Args) == 2 {
-						n := c03KnownLen(ev.Args[1])
-						if n < 0 {
-							unknown = true
-						} else if n > 0 { // writing zero bytes does not change the MAC input
-							segs = append(segs, n)
-							sum += n
-						}
-					}
-					if strings.HasSuffix(ev.Name, "PutUint64") && len(ev.Args) == 3 && ev.Args[2].K == c03Int {
-						al, sawAL = ev.Args[2].I, true
-					}
-				}
-				same := len(segs) == len(expect)
-				for k := 0; same && k < len(segs); k++ {
-					same = segs[k] == expect[k]
-				}
-				msg := ""
-				switch {
-				case o.Panic != "":
-					msg = o.Panic
-				case unknown:
-					w.imprecise = run.desc + ": a Write of unknown length; layout not decidable"
-				case sum != wantSum:
-					msg = fmt.Sprintf("the MAC is fed %d bytes (pieces %v); RFC 7518 §5.2.2.1 always MACs A || IV || E || AL = %d+16+48+8 = %d bytes — the 8-byte AL block (all zero for empty associated data) is part of the input on every path, so this tag differs from every other implementation's", sum, segs, adv.n, wantSum)
-				case !same && len(segs) == len(expect):
-					msg = fmt.Sprintf("MAC input is written as pieces of %v bytes; RFC 7518 §5.2.2.1 requires A(%d) || IV(16) || E(48) || AL(8)", segs, adv.n)
-				case !same:
-					w.imprecise = fmt.Sprintf("%s: the MAC input has the right total length but is written in %d pieces (%v); order not decidable", run.desc, len(segs), segs)
-				case sawAL && al != 8*adv.n, !sawAL && adv.n != 0:
-					msg = fmt.Sprintf("AL encodes %d, RFC 7518 requires the bit length of the associated data (%d)", al, 8*adv.n)
-				case c03KnownLen(o.Res[0]) != 24:
-					msg = "hmacTag does not truncate the MAC to the requested tag length"
-				}
-				if msg != "" && w.bad == "" {
-					w.bad = run.desc + ": " + msg
-				}
-			}
-			vw.merge(w)
-		}
-		e.settle(c03RAead, rel+".aesCBCAEAD MAC input", p.Pos(hmacTag.Pos()), vw, "Seal and Open both MAC (associated data, nonce, ciphertext) in the RFC 7518 layout", "the authentication tag does not cover what RFC 7518 says it covers")
-	}
-	// NOTE only: MAC-then-decrypt order
-	{
-		run := e.run(mk(16, 16, false), open, oargs(16, 48), "order")
-		for _, o := range run.outs {
-			if !c03Success(o) {
-				continue
-			}
-			eq, dec := -1, -1
-			for k, ev := range o.Events {
-				if ev.Name == "crypto/hmac.Equal" && eq < 0 {
-					eq = k
-				}
-				if ev.Name == "crypto/cipher.NewCBCDecrypter" && dec < 0 {
-					dec = k
-				}
-			}
-			if eq >= 0 && dec >= 0 && dec < eq {
-				e.r.Note("aescbcaead.Open decrypts before it compares the tag (not required by C03's statement; good practice is MAC-then-decrypt)")
-			}
-		}
-	}
-	e.settle(c03RAead, FuncName(p, seal)+" well-formed input", p.Pos(seal.Pos()), vSeal, "Seal produces output for every plaintext length without reaching a panicking precondition", "Seal fails on well-formed input")
-
-	// NonceSize / Overhead
-	{
-		run := e.run(mk(24, 24, false), nonceSize, []c03V{c03NonNilV()}, "NonceSize()")
-		ok := len(run.outs) > 0
-		for _, o := range run.outs {
-			if len(o.Res) != 1 || o.Res[0].K != c03Int || o.Res[0].I != 16 {
-				ok = false
-			}
-		}
-		run2 := e.run(mk(24, 24, false), overhead, []c03V{c03NonNilV()}, "Overhead()")
-		ok2 := len(run2.outs) > 0
-		for _, o := range run2.outs {
-			if len(o.Res) != 1 || o.Res[0].K != c03Int || o.Res[0].I != 24 {
-				ok2 = false
-			}
-		}
-		e.r.Check(ok && ok2, c03RAead, "crypto/aescbcaead.aesCBCAEAD NonceSize/Overhead", p.Pos(nonceSize.Pos()),
-			"NonceSize() is the AES block size and Overhead() the tag size", "NonceSize() must return 16 and Overhead() the configured tag size: the callers' nonce and tag guards compare against them, so right-sized nonces/tags would be refused or wrong ones let through")
-	}
-
-	// RFC 7518 §5.2.3–5.2.5 parameters of the constructors the dispatcher uses
-	for _, k := range []struct {
-		ctor                     string
-		enc, mac, tag, key, hash int64
-		hname                    string
-	}{
-		{"NewAESCBC128SHA256", 16, 16, 16, 32, e.hashConst("SHA256"), "SHA-256"},
-		{"NewAESCBC192SHA384", 24, 24, 24, 48, e.hashConst("SHA384"), "SHA-384"},
-		{"NewAESCBC256SHA512", 32, 32, 32, 64, e.hashConst("SHA512"), "SHA-512"},
-	} {
-		fn := p.Func(rel, k.ctor)
-		construct := rel + "." + k.ctor + " parameters"
-		run := e.run(e.scenario(), fn, []c03V{c03SliceV(k.key)}, fmt.Sprintf("%d-byte key", k.key))
-		msg, und := "", ""
-		found := false
-		okOut := false
-		for _, o := range run.outs {
-			if c03Success(o) {
-				okOut = true
-			}
-			for _, ev := range o.Events {
-				if ev.Name != e.mod+"/"+rel+".NewAESCBCAEAD" || len(ev.Args) != 1 || ev.Args[0].K != c03Struct {
-					continue
-				}
-				found = true
-				m := ev.Args[0].M
-				for _, f := range []struct {
-					n    string
-					want int64
-				}{{"encKeySize", k.enc}, {"macKeySize", k.mac}, {"tagSize", k.tag}} {
-					if v := m[f.n]; v.K != c03Int {
-						und = f.n + " is not a constant"
-					} else if v.I != f.want {
-						msg = fmt.Sprintf("%s = %d, RFC 7518 requires %d", f.n, v.I, f.want)
-					}
-				}
-				h := m["macAlg"].G
-				want := []string{fmt.Sprintf("func:(crypto.Hash).New$bound[%d]", k.hash)}
-				switch k.hname {
-				case "SHA-256":
-					want = append(want, "func:crypto/sha256.New")
-				case "SHA-384":
-					want = append(want, "func:crypto/sha512.New384")
-				case "SHA-512":
-					want = append(want, "func:crypto/sha512.New")
-				}
-				match := false
-				for _, w := range want {
-					if h == w {
-						match = true
-					}
-				}
-				if !match {
-					if strings.HasPrefix(h, "func:(crypto.Hash).New$bound[") || strings.HasPrefix(h, "func:crypto/sha") || strings.HasPrefix(h, "func:crypto/md5") {
-						msg = "MAC hash is " + strings.TrimPrefix(h, "func:") + ", RFC 7518 requires HMAC-" + k.hname
-					} else {
-						und = "MAC hash constructor " + h + " not recognised"
-					}
-				}
-			}
-		}
-		switch {
-		case msg != "":
-			e.r.Violation(c03RAead, construct, p.Pos(fn.Pos()), "not the RFC 7518 AEAD (ciphertexts/tags do not interoperate): "+msg)
-		case !found || und != "":
-			e.r.Undecide("%s %s: cannot evaluate the parameter literal (%s)", c03RAead, construct, und)
-			e.r.Trivial(c03RAead, construct, p.Pos(fn.Pos()), "undecided")
-		case !okOut:
-			e.r.Violation(c03RAead, construct, p.Pos(fn.Pos()), fmt.Sprintf("the constructor rejects its own %d-byte key (enc+mac key sizes do not add up)", k.key))
-		default:
-			e.r.OK(c03RAead, construct, p.Pos(fn.Pos()), "enc/mac/tag sizes and hash match RFC 7518 and the constructor accepts a key of their sum")
-		}
-	}
 }
 
 // ---- aeskw -----------------------------------------------------------------------
